@@ -48,6 +48,8 @@ proof!(8, fn c15_shm_pool_history() {
     kani::assume(memsize <= 48);
     let bl = any_layout(12, 3);
     kani::assume(bl.size() >= 1);
+    // at most 5 buckets (the index set initialisation loops over capacity + 1 cells)
+    kani::assume(memsize <= 5 * bl.size());
     let base = payload.0.as_mut_ptr();
     let seg = NonNull::slice_from_raw_parts(NonNull::new(base).unwrap(), memsize);
     let cfg = shm_pool::Config { bucket_layout: bl };
@@ -272,7 +274,7 @@ proof!(8, fn c14_shm_pool_relational() {
     let shift: usize = kani::any();
     kani::assume(shift == 0 || shift == 16 || shift == 32);
     let bl = any_layout(12, 3);
-    kani::assume(bl.size() >= 1);
+    kani::assume(bl.size() >= 8);
     let memsize = 48;
     let cfg = shm_pool::Config { bucket_layout: bl };
     let seg1 = NonNull::slice_from_raw_parts(NonNull::new(p1.0.as_mut_ptr()).unwrap(), memsize);
@@ -309,5 +311,64 @@ proof!(8, fn c14_shm_pool_relational() {
         step += 1;
     }
     kani::cover!(last.is_some() && shift == 32, "allocation in the shifted segment");
+    canaries();
+});
+
+/// shm pool allocator grow (in-bucket): same offset, content kept (Front) or moved to the end
+/// (Back, incl. overlapping moves), neighbour bucket untouched, documented errors otherwise
+proof!(14, fn c15_shm_pool_grow() {
+    let mut payload = Block::<128>::new();
+    let mut mgmt = Block::<MGMT>::new();
+    let bl = Layout::from_size_align(12, 4).unwrap();
+    let base = payload.0.as_mut_ptr();
+    let seg = NonNull::slice_from_raw_parts(NonNull::new(base).unwrap(), 36);
+    let cfg = shm_pool::Config { bucket_layout: bl };
+    let mut a = unsafe { shm_pool::PoolAllocator::new_uninit(64, seg, &cfg) };
+    let mgmt_alloc = BumpAllocator::new(NonNull::new(mgmt.0.as_mut_ptr()).unwrap(), MGMT);
+    assert!(unsafe { a.init(&mgmt_alloc) }.is_ok());
+    let ia = unsafe { a.assume_init() };
+    let start = base as usize + a.relative_start_address();
+    let other = ia.allocate(bl).unwrap();
+    let old_size: usize = kani::any();
+    kani::assume(old_size >= 1 && old_size <= 12);
+    let new_size: usize = kani::any();
+    kani::assume(new_size <= 14);
+    let old_l = Layout::from_size_align(old_size, 4).unwrap();
+    let new_l = Layout::from_size_align(new_size, 4).unwrap();
+    let p = ia.allocate(old_l).unwrap();
+    let data: [u8; 12] = kani::any();
+    let mut i = 0;
+    while i < 12 {
+        if i < old_size {
+            unsafe { *((start + p.offset() + i) as *mut u8) = data[i] };
+        }
+        unsafe { *((start + other.offset() + i) as *mut u8) = 0x77 };
+        i += 1;
+    }
+    let back: bool = kani::any();
+    let placement = if back { ContentPlacement::Back } else { ContentPlacement::Front };
+    match unsafe { ia.grow(p, old_l, new_l, placement) } {
+        Ok(q) => {
+            assert!(new_size >= old_size && new_size <= 12);
+            assert!(q == p, "c15: shm pool grow moved the bucket");
+            let off = if back { new_size - old_size } else { 0 };
+            let mut i = 0;
+            while i < 12 {
+                if i < old_size {
+                    assert!(unsafe { *((start + q.offset() + off + i) as *const u8) } == data[i], "c15: shm pool grow lost content");
+                }
+                assert!(unsafe { *((start + other.offset() + i) as *const u8) } == 0x77, "c15: shm pool grow touched a neighbour bucket");
+                i += 1;
+            }
+            kani::cover!(back && off > 0 && off < old_size, "overlapping move to the back");
+        }
+        Err(e) => {
+            if new_size < old_size {
+                assert!(e == AllocationGrowError::GrowWouldShrink);
+            } else {
+                assert!(new_size > 12 && e == AllocationGrowError::OutOfMemory);
+            }
+        }
+    }
     canaries();
 });
